@@ -1,12 +1,12 @@
 """C02: fingerprint_tcp selection order, direction and distance."""
-from harness import tcpgen as G
+from harness import tcpgen as G, wire as W
 
 RULE = ("databases of 1-12 records around one wire packet: each record is exact / fuzzy-TTL / fuzzy-quirk / non-matching x "
         "generic/specific x class '!'/other, shuffled, in both sections, a third of the files re-opening a section later (the other direction's section is seeded with a specific "
         "exact match); observable (line number, match type, distance) of fingerprint_tcp through the public API on real bytes; "
         "non-trivial = the model returns a match; plus guess_distance on all 256 TTLs")
 GEN_TIE = True     # the anchored decision functions are also TRANSLATED from /repo's source on every run and proved equal to the model
-ASSUMPTIONS = ["the packet signature fed to the model is the one the implementation extracted (extraction is tied separately by C03)"]
+ASSUMPTIONS = ["packets Scapy cannot dissect (known finding KF-scapy-ao of C03) are skipped"]
 EXHAUSTIVE = {"no-match distance for every packet TTL 0..255": True}
 CLASSES = ["unix", "win", "!", "other"]
 
@@ -116,16 +116,25 @@ def enc_recs(recs):
 
 
 def model_cases(cases, impl_res, run_model):
-    lines, idx = [], []
+    """Two phases, both on the model side: the verified extractor reads the packet signature from the wire bytes (C03's model),
+    then the selection loop runs on it.  Nothing the implementation extracted is given to the model."""
+    from harness import findings
     out = [None] * len(cases)
-    for i, (c, ir) in enumerate(zip(cases, impl_res)):
-        if isinstance(ir, dict) and ir.get("noextract") and c["spec"].get("frag"):
-            out[i] = {"err": "PacketError"}     # non-first fragment: no TCP header to dissect, must be rejected
+    ex_lines = []
+    for c in cases:
+        sp = W.full(c["spec"])
+        ex_lines.append("extract %d %d %s" % (sp["v"], c["syn_mss"], W.build(c["spec"]).hex()))
+    ex = run_model(ex_lines)
+    lines, idx = [], []
+    for i, (c, ir, e) in enumerate(zip(cases, impl_res, ex)):
+        if isinstance(ir, dict) and ir.get("noextract") and findings.scapy_ao_short(bytes.fromhex(W.full(c["spec"])["opts"])):
+            out[i] = {"skipped": "KF-scapy-ao"}        # Scapy cannot dissect this option area (known finding of C03)
             continue
-        if not isinstance(ir, dict) or "psig" not in ir:
-            out[i] = {"skipped": "implementation gave no packet signature"}
+        if e == "unframed" or not isinstance(e, dict) or "ok" not in e:
+            out[i] = {"err": "PacketError"}
             continue
-        lines.append("fp_tcp %d %d %d %s %s %s" % (c["md"], int(ir["frag"]), ir["type"], G.enc_pkt(ir["psig"]),
+        k = e["ok"]
+        lines.append("fp_tcp %d %d %d %s %s %s" % (c["md"], int(k["ip"]["is_fragment"]), k["tcp"]["type"], G.enc_pkt(k["psig"]),
                                                   enc_recs(c["secs"].get("request")), enc_recs(c["secs"].get("response"))))
         idx.append(i)
     for i, r in zip(idx, run_model(lines)):
@@ -173,7 +182,7 @@ def nontrivial(c, ir, mr):
 
 def judge(c, ir, mr):
     if isinstance(mr, dict) and "skipped" in mr:
-        return {"kind": "implementation failed before extraction", "why": str(ir)}
+        return None
     if isinstance(ir, dict) and ir.get("res") == mr:
         if "ok" in mr and not 0 <= mr["ok"][2] <= 255:
             return {"kind": "distance outside 0..255", "why": str(mr)}
